@@ -45,7 +45,7 @@ structure PSet where
   length : Nat
   names : List (Name × Name) := []       -- (partition name, model name)
   parts : List Int                        -- partition index of every site, −1 = none
-deriving Repr
+deriving DecidableEq, Repr
 
 def newPSet (len : Nat) : PSet := { length := len, parts := List.replicate len (-1) }
 
